@@ -107,6 +107,9 @@ func fxData(e fxEvent, n, t int) []byte {
 		case "keyB", "lateB":
 			r.MasterKey = []byte("master-key-B")
 			r.PubPolyBz = []byte("pubpoly-B")
+		case "keyOnlyB":
+			// a differing group key announced together with the agreed polynomial: the key comparison alone must catch it
+			r.MasterKey = []byte("master-key-B")
 		case "empty":
 			r.MasterKey = nil
 		}
@@ -235,7 +238,7 @@ func fxAlphabet(n, t int) []fxEvent {
 				a = append(a, fxEvent{string(ev), p, v})
 			}
 		}
-		for _, v := range []string{"valid", "keyB", "late", "lateB", "zero", "empty"} {
+		for _, v := range []string{"valid", "keyB", "keyOnlyB", "late", "lateB", "zero", "empty"} {
 			a = append(a, fxEvent{string(dpf.EventDKGMasterKeyConfirmationReceived), p, v})
 		}
 		for _, ev := range []fsm.Event{dpf.EventDKGCommitConfirmationError, dpf.EventDKGDealConfirmationError, dpf.EventDKGResponseConfirmationError, dpf.EventDKGMasterKeyConfirmationError} {
@@ -265,7 +268,7 @@ func fxWellFormed(e fxEvent, n int) bool {
 		return false
 	}
 	switch e.Var {
-	case "valid", "late", "keyB", "lateB":
+	case "valid", "late", "keyB", "keyOnlyB", "lateB":
 		return true
 	}
 	return false
@@ -420,7 +423,7 @@ func fxJudge(pre fxOracle, e fxEvent, res fxResult, n int) (fxOracle, *viol) {
 			post.Delivered |= bit
 			if pre.Phase == phKeys {
 				k := "A"
-				if e.Var == "keyB" {
+				if e.Var == "keyB" || e.Var == "keyOnlyB" {
 					k = "B"
 				}
 				if post.Key == "" {
